@@ -209,9 +209,21 @@ def id_cls(i):
     return _id_cls.get(i)
 
 
+_sub_cache = {}
+
+
 def subclass_ids(q, only_exceptions=False):
     """ids of all registered classes that are subclasses of q (closed world, A-PY)"""
     ensure_registry()
+    key = (q, len(_cls_ids))
+    if key in _sub_cache:
+        return _sub_cache[key]
+    r = _subclass_ids(q)
+    _sub_cache[key] = r
+    return r
+
+
+def _subclass_ids(q):
     base = cls_obj(q)
     out = []
     for qq, c in list(_cls_objs.items()):
